@@ -741,4 +741,222 @@ example : ParentLower treeEnv ∧ (treeEnv.block 5).id = 5 ∧
     (walk treeEnv { pointer := 5 } 0 2 false).2 = true ∧ (walk treeEnv { pointer := 5 } 0 2 false).1.pointer = 2 :=
   ⟨treeEnv_lower, by decide, by decide, by decide, by decide, by decide⟩
 
+-- ================================================================== chains of blocks, the pool, and walks
+
+/-- apply-then-undo without the fee step (a pool transaction): refinement of the state before -/
+theorem undo_apply_refines (e : Env) (r : St) (lh : Int) (t : Tx)
+    (hadm : admitTx r lh t = .ok) (hinv : KVInv e r) (hnd : koutDistinct t)
+    (hfresh : ∀ o, lookup r.U (t.id, o) = none) (hself : ∀ x ∈ t.ins, x.tx ≠ t.id) (hfz : citesFrozen r t) :
+    Refines (undoTx e (applyTx r t) t) r := by
+  obtain ⟨_, _, hread, hwr⟩ := XV.C03.admit_sound r lh t hadm
+  obtain ⟨f1, f2, f3⟩ := undo_apply_frame e r t
+  exact ⟨⟨undo_apply_U e r lh t hadm hfresh hself hfz, undo_apply_curVer e r t hread hwr hnd,
+    undo_apply_total e r t, f1, f2, f3⟩,
+    fun k => (undo_apply_tables e r t hinv hread hwr hnd k).1,
+    fun k m => (undo_apply_tables e r t hinv hread hwr hnd k).2 m⟩
+
+/-- side conditions on the pending transactions, each at its point of application: admitted at some ledger height,
+known under its id / no self-citing input / one write per key, output rows fresh, inputs cite the frozen height -/
+def PoolValid (e : Env) : List Nat → St → Prop
+  | [], _ => True
+  | i :: rest, s => (∃ lh, admitTx s lh (e.tx i) = .ok) ∧ TxWF e i ∧ (∀ o, lookup s.U (i, o) = none) ∧
+      citesFrozen s (e.tx i) ∧ PoolValid e rest (applyTx s (e.tx i))
+
+/-- **rolling the pool back cancels its applications** (`walk` step 1): from any state that refines the base state
+with the pool applied, the roll-back (newest first) refines the base state -/
+theorem rollback_applyPool (e : Env) (l : List Nat) (s : St) (hv : PoolValid e l s) (hinv : KVInv e s) :
+    ∀ x, TRefines x (applyPool e l s) → TRefines (rollback e l x) s := by
+  induction l generalizing s with
+  | nil => intro x hx; exact hx
+  | cons i rest ih =>
+    intro x hx
+    obtain ⟨⟨lh, hadm⟩, wi, hfresh, hfz, hrest⟩ := hv
+    have hid : e.tx (e.tx i).id = e.tx i := by rw [wi.id]
+    obtain ⟨_, _, hread, hwr⟩ := XV.C03.admit_sound s lh (e.tx i) hadm
+    rw [applyPool_cons] at hx
+    have h1 := ih (applyTx s (e.tx i)) hrest (applyTx_KVInv' e s (e.tx i) hid hinv) x hx
+    rw [rollback_cons]
+    exact (undoTx_trefines e _ _ (e.tx i) wi.kout (undoSafe_applyTx s (e.tx i) hread hwr wi.kout) h1).trans
+      (undo_apply_refines e s lh (e.tx i) hadm hinv wi.kout (fun o => by rw [wi.id]; exact hfresh o)
+        (fun y hy => by rw [wi.id]; exact wi.self y hy) hfz).toT
+
+/-- the hypotheses of `undoBlock_todoBlock` for block `b` on state `r`, with the ledger height of the admission
+left open (the result of a successful application does not depend on it) -/
+structure BlockValid (e : Env) (r : St) (b : Block) : Prop where
+  fwd : ∃ lh s2, applyBlockTxs e lh b.prop [] b.txs r = some (s2, .ok)
+  wf : ∀ i ∈ b.txs, TxWF e i
+  nodup : b.txs.Nodup
+  fresh : ∀ i ∈ b.txs, ∀ o, lookup r.U (i, o) = none
+  frozen : FrozenAlong e b.prop b.txs r
+
+/-- `BlockValid` for every block of a chain (oldest first), each on the replay of the blocks before it -/
+def ChainValid (e : Env) : List Nat → St → Prop
+  | [], _ => True
+  | bi :: rest, r => BlockValid e r (e.block bi) ∧ ChainValid e rest (replayBlock e r (e.block bi))
+
+theorem chainValid_snoc (e : Env) (l : List Nat) (bi : Nat) (r : St) (h : ChainValid e (l ++ [bi]) r) :
+    ChainValid e l r ∧ BlockValid e (replayChain e l r) (e.block bi) := by
+  induction l generalizing r with
+  | nil => exact ⟨trivial, h.1⟩
+  | cons b0 rest ih =>
+    obtain ⟨h1, h2⟩ := h
+    obtain ⟨i1, i2⟩ := ih _ h2
+    exact ⟨⟨h1, i1⟩, i2⟩
+
+theorem replayChain_KVInv (e : Env) (l : List Nat) (r : St) (hv : ChainValid e l r) (hinv : KVInv e r) :
+    KVInv e (replayChain e l r) := by
+  induction l generalizing r with
+  | nil => exact hinv
+  | cons bi rest ih =>
+    rw [replayChain_cons]
+    exact ih _ hv.2 (replayBlock_KVInv e (e.block bi) r (fun i hi => by rw [(hv.1.wf i hi).id]) hinv)
+
+/-- **undoing a block from any state that refines its replay refines the state before the block** -/
+theorem undoBlock_replayBlock (e : Env) (r : St) (b : Block) (hv : BlockValid e r b) (hinv : KVInv e r)
+    (x : St) (hx : TRefines x (replayBlock e r b)) : TRefines (undoBlock e x b false) r := by
+  obtain ⟨lh, s2, hfwd⟩ := hv.fwd
+  have hx2 : TRefines x s2 := by
+    rw [applyBlockTxs_ok_eq e lh b.prop b.txs r s2 hfwd]
+    exact hx.of_tables ⟨rfl, rfl, rfl, rfl⟩ ⟨rfl, rfl, rfl, rfl⟩
+  have := undoTxs_applyBlockTxs e lh b.prop b.txs r s2 hfwd hv.wf hv.nodup hv.fresh hv.frozen hinv x hx2
+  rw [undoBlock_eq]
+  exact this.of_tables ⟨rfl, rfl, rfl, rfl⟩ ⟨rfl, rfl, rfl, rfl⟩
+
+/-- **the undo loop of `walk` cancels a replayed chain**: if it completes on a state that refines the replay of the
+undone blocks (given newest first, as `undoTodo` lists them) on `r`, the result refines `r` -/
+theorem undoAll_replayChain (e : Env) (undo : List Nat) :
+    ∀ (r x : St), ChainValid e undo.reverse r → KVInv e r → TRefines x (replayChain e undo.reverse r) →
+      (walk.undoAll e false undo x).2 = true → TRefines (walk.undoAll e false undo x).1 r := by
+  induction undo with
+  | nil => intro r x _ _ hx _; exact hx
+  | cons bi rest ih =>
+    intro r x hv hinv hx hok
+    rw [List.reverse_cons] at hv hx
+    obtain ⟨hv1, hv2⟩ := chainValid_snoc e rest.reverse bi r hv
+    rw [replayChain_snoc] at hx
+    have hstep := undoBlock_replayBlock e _ (e.block bi) hv2 (replayChain_KVInv e _ r hv1 hinv) x hx
+    have hdef : walk.undoAll e false (bi :: rest) x =
+        if (!false && decide (((e.block bi).height : Int) ≤ x.irrev)) = true then (x, false)
+        else walk.undoAll e false rest (undoBlock e x (e.block bi) false) := by
+      rw [walk.undoAll]
+    rw [hdef] at hok ⊢
+    by_cases hc : ((e.block bi).height : Int) ≤ x.irrev
+    · simp [hc] at hok
+    · simp only [Bool.not_false, Bool.true_and, hc, decide_false, Bool.false_eq_true, ↓reduceIte] at hok ⊢
+      exact ih r _ hv1 hinv hstep hok
+
+theorem undoAll_pool (e : Env) (l : List Nat) : ∀ (st : St), (walk.undoAll e false l st).1.pool = st.pool := by
+  induction l with
+  | nil => intro st; rfl
+  | cons bi rest ih =>
+    intro st
+    rw [walk.undoAll]
+    split
+    · rfl
+    · rw [ih, undoBlock_eq]
+      exact (undoTxs_frame e (e.block bi).txs st).2.2
+
+theorem replayChain_pool (e : Env) (l : List Nat) (s : St) : (replayChain e l s).pool = s.pool := by
+  induction l generalizing s with
+  | nil => rfl
+  | cons bi rest ih =>
+    rw [replayChain_cons, ih]
+    exact (replayTxs_frame e (e.block bi).prop (e.block bi).txs s).2.2
+
+/-- **a successful walk lands on the replay of the destination's branch.** Let `(undo, todo) = undoTodo` (so, by
+`undoTodo_spec`, `undo.reverse` / `todo` are the branches of the tip / of the destination above their lowest common
+ancestor, oldest first). If the state refines "`r`, then the blocks of `undo.reverse` replayed, then the pool
+applied" — `r` playing the role of the state at the common ancestor —, the undone branch and the pool satisfy the
+side conditions of the block / transaction theorems (`ChainValid`, `PoolValid`), `r` is well-formed, and the
+non-pruning walk reports success, then the walk's result is: a state `s2` with an empty pool that refines
+"`r`, then the blocks of `todo` replayed", followed by the re-admission of the old pool (`doTx`, oldest first).
+In particular (`TRefines`): every UTXO row, the current version of every key and the total after the walk are those
+of a replay of the destination branch from the common ancestor — independent of the branch the node came from. -/
+theorem walk_refines (e : Env) (s : St) (lh : Int) (dest : Nat) (r : St)
+    (hok : (walk e s lh dest false).2 = true) (hinv : KVInv e r)
+    (hchain : ChainValid e (undoTodo e s.pointer dest).1.reverse r)
+    (hpool : PoolValid e s.pool (replayChain e (undoTodo e s.pointer dest).1.reverse r))
+    (hs : TRefines s (applyPool e s.pool (replayChain e (undoTodo e s.pointer dest).1.reverse r))) :
+    ∃ s2, TRefines s2 (replayChain e (undoTodo e s.pointer dest).2 r) ∧ s2.pool = [] ∧
+      (walk e s lh dest false).1 = s.pool.foldl (fun st i => (doTx e st lh i).1) s2 := by
+  have hR := replayChain_KVInv e _ r hchain hinv
+  have hroll := rollback_applyPool e s.pool _ hpool hR s hs
+  unfold walk at hok ⊢
+  simp only at hok ⊢
+  have h0 : TRefines ({ (s.pool.reverse.foldl (fun st i => undoTx e st (e.tx i)) s) with pool := [] } : St)
+      (replayChain e (undoTodo e s.pointer dest).1.reverse r) :=
+    hroll.of_tables ⟨rfl, rfl, rfl, rfl⟩ ⟨rfl, rfl, rfl, rfl⟩
+  have hp0 : ({ (s.pool.reverse.foldl (fun st i => undoTx e st (e.tx i)) s) with pool := [] } : St).pool = [] := rfl
+  generalize hs0 : ({ (s.pool.reverse.foldl (fun st i => undoTx e st (e.tx i)) s) with pool := [] } : St) = s0
+    at h0 hp0 hok ⊢
+  have hu := undoAll_replayChain e (undoTodo e s.pointer dest).1 r s0 hchain hinv h0
+  have hup := undoAll_pool e (undoTodo e s.pointer dest).1 s0
+  generalize hua : walk.undoAll e false (undoTodo e s.pointer dest).1 s0 = ua at hu hup hok ⊢
+  obtain ⟨s1, ok1⟩ := ua
+  simp only at hu hup
+  by_cases hok1 : ok1 = true
+  · simp only [hok1, Bool.not_true, Bool.false_eq_true, ↓reduceIte] at hok ⊢
+    have ht := todoAll_eq e lh (undoTodo e s.pointer dest).2 s1
+    generalize hta : walk.todoAll e lh (undoTodo e s.pointer dest).2 s1 = ta at ht hok ⊢
+    obtain ⟨s2, ok2⟩ := ta
+    simp only at ht
+    by_cases hok2 : ok2 = true
+    · simp only [hok2, Bool.not_true, Bool.false_eq_true, ↓reduceIte] at hok ⊢
+      refine ⟨s2, ?_, ?_, rfl⟩
+      · rw [ht hok2]
+        exact replayChain_trefines e _ s1 r (hu hok1)
+      · rw [ht hok2, replayChain_pool, hup, hp0]
+    · simp [hok2] at hok
+  · simp [hok1] at hok
+
+/-- with an empty pool the walk's result itself refines the replay of the destination branch -/
+theorem walk_refines_nopool (e : Env) (s : St) (lh : Int) (dest : Nat) (r : St)
+    (hok : (walk e s lh dest false).2 = true) (hinv : KVInv e r) (hp : s.pool = [])
+    (hchain : ChainValid e (undoTodo e s.pointer dest).1.reverse r)
+    (hs : TRefines s (replayChain e (undoTodo e s.pointer dest).1.reverse r)) :
+    TRefines (walk e s lh dest false).1 (replayChain e (undoTodo e s.pointer dest).2 r) := by
+  obtain ⟨s2, h1, _, h3⟩ := walk_refines e s lh dest r hok hinv hchain
+    (by rw [hp]; trivial) (by rw [hp]; exact hs)
+  rw [h3, hp]
+  exact h1
+
+-- non-vacuity of `walk_refines`: blocks 2 and 3 are both children of block 1; block 2 = award 20 + transfer 21 (which
+-- creates key "k" and pays a fee), block 3 = award 30 + transfer 31 (spends the same output, creates key "j");
+-- the node is at block 2 with transaction 22 (spends an output of 21, overwrites "k") pending, and walks to 3
+private def wkEnv : Env := {
+  txs := [
+    (20, ⟨20, true, [], [⟨"m2", 10, 0⟩], [], []⟩),
+    (21, ⟨21, false, [⟨0, 0, "u0", 5, 0, false⟩], [⟨"u1", 4, 0⟩, ⟨"$", 1, 0⟩], [⟨"k", none⟩], [⟨"k", "a", false⟩]⟩),
+    (22, ⟨22, false, [⟨21, 0, "u1", 4, 0, false⟩], [⟨"u2", 4, 0⟩], [⟨"k", some (21, 0)⟩], [⟨"k", "b", false⟩]⟩),
+    (30, ⟨30, true, [], [⟨"m3", 10, 0⟩], [], []⟩),
+    (31, ⟨31, false, [⟨0, 0, "u0", 5, 0, false⟩], [⟨"u3", 5, 0⟩], [⟨"j", none⟩], [⟨"j", "c", false⟩]⟩)],
+  blocks := [(1, ⟨1, none, 1, [], "m1"⟩), (2, ⟨2, some 1, 2, [20, 21], "m2"⟩), (3, ⟨3, some 1, 2, [30, 31], "m3"⟩)] }
+/-- the state at block 1 -/
+private def wkR : St := { U := [((0, 0), ⟨"u0", 5, 0⟩)], total := 5, pointer := 1 }
+/-- the node: block 2 replayed on it, transaction 22 applied and pending -/
+private def wkS : St := { applyPool wkEnv [22] (replayChain wkEnv [2] wkR) with pool := [22] }
+
+example : undoTodo wkEnv wkS.pointer 3 = ([2], [3]) ∧ wkS.pool = [22] ∧
+    (walk wkEnv wkS 0 3 false).2 = true := by decide
+example : KVInv wkEnv wkR := KVInv_empty wkEnv wkR rfl rfl
+example : TRefines wkS (applyPool wkEnv [22] (replayChain wkEnv [2] wkR)) :=
+  (TRefines.refl _).of_tables ⟨rfl, rfl, rfl, rfl⟩ ⟨rfl, rfl, rfl, rfl⟩
+example : ChainValid wkEnv [2] wkR := by
+  refine ⟨⟨⟨0, fwd_of_res _ _ _ _ _ (by decide)⟩, ?_, by decide, ?_, by decide⟩, trivial⟩
+  · intro i hi
+    have : i = 20 ∨ i = 21 := by simpa [wkEnv, Env.block, lookup] using hi
+    rcases this with rfl | rfl <;> exact ⟨by decide, by decide, by decide⟩
+  · intro i hi
+    have : i = 20 ∨ i = 21 := by simpa [wkEnv, Env.block, lookup] using hi
+    rcases this with rfl | rfl <;> exact absent_of_rows _ _ (by decide)
+example : PoolValid wkEnv [22] (replayChain wkEnv [2] wkR) :=
+  ⟨⟨0, by decide⟩, ⟨by decide, by decide, by decide⟩, absent_of_rows _ _ (by decide), by decide, trivial⟩
+-- and the conclusion, computed: after the walk the rows, keys and total are those of block 3 replayed on block 1
+-- (transaction 22 cannot be re-admitted: its input is gone with block 2)
+example :
+    let w := (walk wkEnv wkS 0 3 false).1
+    let c := replayChain wkEnv [3] wkR
+    w.pointer = 3 ∧ w.pool = [] ∧ w.U = c.U ∧ w.total = c.total ∧ curVer w "k" = none ∧ curVer c "k" = none ∧
+    curVer w "j" = some (31, 0) ∧ curVer c "j" = some (31, 0) ∧ curVer wkS "k" = some (22, 0) := by decide
+
 end XV.C01
